@@ -5,6 +5,14 @@ PY_SUBSET = ('Python semantics of the executed subset as encoded by pyvc.symexec
              'sequences as len/at theories, path-by-path execution, loops cut at invariants)')
 
 PROPS = {
+    'C01': {
+        'level': 'proof',
+        'proof': [('contracts.advan', None)],
+        'bounded': [],
+        'assumptions': [PY_SUBSET, FLOAT_AS_REAL],
+        'explanation': 'ADVAN/TRANS kinetic tables proved equal to the PREDPP definitions for all parameter '
+                       'values; abbreviated-code semantics, record parsing and the compartment wiring bounded',
+    },
     'C10': {
         'level': 'proof',
         'proof': [('contracts.statements_df', None)],
